@@ -288,6 +288,33 @@ def _machine(r, p):
                     cur = cur.orelse[0]
                 else:
                     break
+    # the machine's tag lists are sets kept in lists: `remove` deletes ONE occurrence (list.remove), so every writer
+    # that grows them must keep them duplicate-free, otherwise a rule switched off twice stays off after vsg_on
+    for fi in p.functions.values():
+        if fi.module.name != "vsg.vhdlFile.code_tags":
+            continue
+        facts = None
+        for n in walk_function(fi.node):
+            if not (isinstance(n, ast.Call) and isinstance(n.func, ast.Attribute) and n.func.attr in ("append", "extend", "insert")):
+                continue
+            recv = n.func.value
+            if not (isinstance(recv, ast.Attribute) and isinstance(recv.value, ast.Name) and recv.value.id == "self" and recv.attr in ("code_tags", "next_line_code_tags")):
+                continue
+            kk = "%s:%s" % (fi.key, norm(n))
+            if n.func.attr != "append" or len(n.args) != 1:
+                ok = False
+                r.fail("C11.machine", kk, "the active-tag list `%s` grows by %s without a membership test: a tag can be stored twice, but vsg_on removes only one occurrence, so the rule stays suppressed after its vsg_on" % (recv.attr, n.func.attr), fi.loc(n))
+                continue
+            if facts is None:
+                facts = Facts(fi.node)
+            conds = dict(facts.conds_at(n))
+            want = "%s not in %s" % (norm(n.args[0]), norm(recv))
+            alt = "%s in %s" % (norm(n.args[0]), norm(recv))
+            if conds.get(want) is True or conds.get(alt) is False:
+                r.ok("C11.machine", kk, "append guarded by `%s`" % want)
+            else:
+                ok = False
+                r.fail("C11.machine", kk, "the active-tag list `%s` is appended to without `%s`: duplicates make vsg_on (single list.remove) leave the rule suppressed" % (recv.attr, want), fi.loc(n))
     if ok:
         r.ok("C11.machine", st.key, "every token stamped and fed to the state machine in each of %d branches" % len(branches))
 
@@ -311,6 +338,8 @@ VARIANTS = [
             [("vsg/vhdlFile/vhdlFile.py", "    def update_token_map(self):\n        self.oTokenMap = process_tokens(self.lAllObjects)", "    def update_token_map(self):\n        set_code_tags(self.lAllObjects)\n        self.oTokenMap = process_tokens(self.lAllObjects)")], rule="C11.stamp", key="restamp"),
     Variant("C11", "vsg_on branch forgets to stamp", "fire",
             [("vsg/vhdlFile/vhdlFile.py", "        if code_tags.token_has_vsg_on_code_tag(oToken):\n            oToken.set_code_tags(oCodeTags.get_tags())\n            oCodeTags.update(oToken)", "        if code_tags.token_has_vsg_on_code_tag(oToken):\n            oCodeTags.update(oToken)")], rule="C11.machine"),
+    Variant("C11", "tags added without the duplicate test", "fire",
+            [("vsg/vhdlFile/code_tags.py", "        if sCodeTag not in self.code_tags:\n            self.code_tags.append(sCodeTag)", "        self.code_tags.append(sCodeTag)")], rule="C11.machine"),
     Variant("C11", "twin: export experiment-free helper rename", "silent",
             [(_R, "            self.violations.append(violation)", "            self.violations.append(violation)  # gated above")]),
 ]
